@@ -2,7 +2,7 @@
    L0 = Staged.v (reference: stack of staging levels over an ordered map),
    L1 = VLog.v (key table + append-only value log with old links: the mechanism shared by ART and RBT). *)
 From Verif Require Import MemBuf.Model MemBuf.Art MemBuf.ProofsArt MemBuf.ProofsArtIns MemBuf.ProofsArtIns2
-  MemBuf.ProofsArtMap MemBuf.ProofsArtL1 MemBuf.Batched MemBuf.ProofsBatched MemBuf.ProofsBatchedL0 MemBuf.ProofsKMap MemBuf.ProofsLog MemBuf.ProofsSim MemBuf.ProofsObs
+  MemBuf.ProofsArtMap MemBuf.ProofsArtL1 MemBuf.Batched MemBuf.ProofsBatched MemBuf.ProofsBatchedL0 MemBuf.ProofsSeq MemBuf.BatchedUse MemBuf.ProofsKMap MemBuf.ProofsLog MemBuf.ProofsSim MemBuf.ProofsObs
   MemBuf.ProofsSet MemBuf.ProofsRevert MemBuf.ProofsStep MemBuf.ProofsProps.
 
 (* 1. Refinement.  Over ALL operation sequences — mutators and observers, valid and invalid handles /
@@ -146,7 +146,7 @@ Print Assumptions C08_cleanup_restores.
 Theorem C08_release_keeps :
   forall s h o,
     match o with
-    | OGet _ | OGetFlags _ | OLen | OSize | OIter _ _ _ | OIterFlags _ _ | OHist _ _ =>
+    | OGet _ | OGetFlags _ | OLen | OSize | OIter _ _ _ | OIterFlags _ _ _ | OHist _ _ =>
         obs0 o (fst (release0 h s)) = obs0 o s
     | _ => True
     end.
@@ -269,12 +269,63 @@ Proof. vm_compute. split; reflexivity. Qed.
 Example batched_reverse_ends_at_empty_key : bwd 41 batch_snap [] [] 32 = rev batch_snap.
 Proof. vm_compute. reflexivity. Qed.
 
+(* 9. The sequence numbers guard the iterators ("an iterator used after a write fails loudly" — and otherwise it is
+   still right).  ART panics in an iterator whose WriteSeqNo is stale and invalidates a snapshot whose
+   SnapshotSeqNo is stale; these two theorems are the other half: if the number did NOT move, nothing an iterator /
+   a snapshot can return has changed. *)
+(* any state, any operation: WriteSeqNo unchanged => log and key table unchanged => Get/GetFlags/Iter/IterWithFlags/
+   SelectValueHistory unchanged *)
+Theorem C08_write_seq_guards_iterators :
+  forall s o o', wseq1 (fst (step1 s o)) = wseq1 s ->
+    match o' with
+    | OGet _ | OGetFlags _ | OIter _ _ _ | OIterFlags _ _ _ | OHist _ _ => obs1 o' (fst (step1 s o)) = obs1 o' s
+    | _ => True
+    end.
+Proof. intros s o o' H. destruct (step1_wseq_same s o H) as [E1 E2]. apply obs1_ext; assumption. Qed.
+Print Assumptions C08_write_seq_guards_iterators.
+
+(* every reachable state, any operation (staged writes, nested stages, checkpoints, reverts inside a stage ...):
+   SnapshotSeqNo unchanged => every snapshot Get and every bounded snapshot iteration unchanged *)
+Theorem C08_snapshot_seq_guards_snapshots :
+  forall ops o,
+    let s := exec1 init1 ops in
+    sseq1 (fst (step1 s o)) = sseq1 s ->
+    (forall rv lo hi, obs1 (OSnapIter rv lo hi) (fst (step1 s o)) = obs1 (OSnapIter rv lo hi) s) /\
+    (forall k, obs1 (OSnapGet k) (fst (step1 s o)) = obs1 (OSnapGet k) s).
+Proof.
+  intros ops o s H. destruct (C08_L1_refines_L0 ops) as [_ HS].
+  exact (snapshot_obs_same _ _ o HS (step1_sseq_same _ _ H)).
+Qed.
+Print Assumptions C08_snapshot_seq_guards_snapshots.
+
+(* hence a batched snapshot iterator opened before such an operation is the iterator one would open after it:
+   reads and (staged) writes may interleave *)
+Theorem C08_batched_iterator_survives_writes :
+  forall ops o rv lo hi,
+    let s := exec1 init1 ops in
+    sseq1 (fst (step1 s o)) = sseq1 s ->
+    bopen1 (fst (step1 s o)) rv lo hi = bopen1 s rv lo hi.
+Proof.
+  intros ops o rv lo hi s H. destruct (C08_snapshot_seq_guards_snapshots ops o H) as [HI _].
+  specialize (HI rv lo hi). cbn [obs1] in HI. unfold bopen1, snap_list1. rewrite H. f_equal. inversion HI as [H1]. exact H1.
+Qed.
+Print Assumptions C08_batched_iterator_survives_writes.
+
+(* both hypotheses are satisfiable by state-changing operations, and both numbers do move on real writes *)
+Example seq_nonvacuous :
+  let s := exec1 init1 [OSet [1%N] [5%N] []; OStaging] in
+  sseq1 (fst (step1 s (OSet [1%N] [6%N; 6%N] []))) = sseq1 s /\
+  wseq1 (fst (step1 s (OSet [1%N] [6%N; 6%N] []))) <> wseq1 s /\
+  wseq1 (fst (step1 s OCheckpoint)) = wseq1 s /\
+  sseq1 (fst (step1 s (ORelease 1%nat))) <> sseq1 s.
+Proof. vm_compute. repeat split; discriminate. Qed.
+
 (* ---- non-vacuity ---- *)
 (* a sequence with stages, checkpoints, reverts, tombstones, flags *)
 Definition nv_ops : list op :=
   [OSet [1] [97; 97] [SetKeyLocked]; OStaging; OCheckpoint; OSet [1] [98; 98; 98] []; OSet [2] [] [];
    OFlags [3] [SetPresumeKeyNotExists]; OCheckpoint; OSet [2] [99] []; ORevert 1%nat; OGet [2]; ORevert 0%nat;
-   OGet [1]; OSnapGet [1]; OIterFlags [] []; OCleanup 1%nat; OLen; OSize].
+   OGet [1]; OSnapGet [1]; OIterFlags false [] []; OCleanup 1%nat; OLen; OSize].
 Example nv_outputs :
   run0 init0 nv_ops =
     [RUnit; RNat 1; RNat 0; RUnit; RUnit; RUnit; RNat 1; RUnit; RUnit; RVal (Some []); RUnit;
